@@ -51,10 +51,15 @@ fn stake_tree_entries(m: &RefState) -> Vec<([u8; 32], Vec<u8>)> {
 }
 
 fn tx_root(m: &RefState) -> [u8; 32] {
-    if m.rules().tip_908 {
-        let mut leaves: Vec<Vec<u8>> = m
-            .block_txs
-            .values()
+    let txs: Vec<melstructs::Transaction> = m.block_txs.values().cloned().collect();
+    tx_root_of(&txs, m.rules().tip_908)
+}
+
+/// The transaction commitment of a block holding exactly `txs`, rebuilt outside the code under test (dense tree under TIP-908).
+pub fn tx_root_of(txs: &[melstructs::Transaction], dense: bool) -> [u8; 32] {
+    if dense {
+        let mut leaves: Vec<Vec<u8>> = txs
+            .iter()
             .map(|t| {
                 let mut v = t.hash_nosigs().0 .0.to_vec();
                 v.extend_from_slice(&tmelcrypt::hash_single(&stdcode::serialize(t).unwrap()).0);
@@ -64,7 +69,7 @@ fn tx_root(m: &RefState) -> [u8; 32] {
         leaves.sort();
         DenseMerkleTree::new(&leaves).root_hash()
     } else {
-        let e: Vec<([u8; 32], Vec<u8>)> = m.block_txs.values().map(|t| (tmelcrypt::hash_single(&stdcode::serialize(&t.hash_nosigs()).unwrap()).0, stdcode::serialize(t).unwrap())).collect();
+        let e: Vec<([u8; 32], Vec<u8>)> = txs.iter().map(|t| (tmelcrypt::hash_single(&stdcode::serialize(&t.hash_nosigs()).unwrap()).0, stdcode::serialize(t).unwrap())).collect();
         fresh_root(&e, false)
     }
 }
